@@ -36,15 +36,6 @@ Definition table : list row := [
   (* line 335; valid_fields:field: HashSet<&'static str>
      HashSet<&str>: `.iter().map(..).any(|x| x == key)` -- an existence test *)
   mk_row "ast/meta.rs" "ParseObject::finish" "iter" "self.valid_fields.iter()" 1 ["4a69e45151"] (PinStmt "f69cbdb4de") AnyAll "";
-  (* line 1113; vars:field: IdMap<DefId,VarData>
-     `vars` is the Vec of declared variables of ast::Item::ConstVar / ast::StmtKind::Declaration; the name collides with Defs::vars *)
-  mk_row "ast/mod.rs" "walk_item" "for" "for sp_pat![(var,expr)]in vars" 1 ["de81639fb8"] PinDecl NotHash "";
-  (* line 1231; vars:field: IdMap<DefId,VarData>
-     `vars` is the Vec of declared variables of ast::Item::ConstVar / ast::StmtKind::Declaration; the name collides with Defs::vars *)
-  mk_row "ast/mod.rs" "walk_stmt" "for" "for sp_pat![(var,value)]in vars" 1 ["de81639fb8"] PinDecl NotHash "";
-  (* line 741; signatures:field: IdMap<Ident,Vec<ReadType>>
-     `signatures` is bound by the enclosing `for (names, signatures, language) in vec![(&mapfile.ins_names, &mapfile.ins_signatures, ..), ..]`: a Vec<(i32, Sp<String>)>; the name collides with CallRegSignatures::signatures *)
-  mk_row "context/defs.rs" "CompilerContext::extend_from_mapfile" "iter" "signatures.iter()" 1 ["fbf095918e"] PinDecl NotHash "";
   (* line 796; enums:field: IdMap<Ident,EnumData>|field: IdMap<Ident,ScalarValueMap<Sp<Ident>>>|field: IdMap<Sp<Ident>,Vec<(i32,Sp<Ident>)>>
      DEFECT: Mapfile::enums is an IdMap; each entry is declared in iteration order: declare_enum, then define_enum_const allocates DefIds, pushes to Consts::deferred_ids and to deferred_equality_checks -- and evaluate_all_deferred reports only the FIRST failing equality check, so which "ambiguous value for enum const" error appears depends on the hash order; Consts::debug_info lists the consts in the same order in the --output-debug-info file (fixes/c19-mapfile-enum-order.diff) *)
   mk_row "context/defs.rs" "CompilerContext::extend_from_mapfile" "iter" "mapfile.enums.iter()" 1 ["c0aa526eb3"] (PinStmt "7f192a11fb") EmitInIterationOrder "extend_from_mapfile/mapfile.enums";
@@ -53,7 +44,7 @@ Definition table : list row := [
   mk_row "context/defs.rs" "CompilerContext::extend_from_mapfile" "iter" "mapfile.enums.iter()" 1 ["70ff796cef"] (PinStmt "7f192a11fb") NotHash "";
   (* line 900; defs:field: HashMap<Ident,RibEntry> ; enums:field: IdMap<Ident,EnumData>|field: IdMap<Ident,ScalarValueMap<Sp<Ident>>>|field: IdMap<Sp<Ident>,Vec<(i32,Sp<Ident>)>>
      Defs::enums (IdMap) -> `.map(|(key, data)| (key.clone(), data.generate_lookup(consts))).collect()` into ConstNames::enums (IdMap), which is only indexed by key (llir/raise/early.rs); generate_lookup walks EnumData::consts, an IndexMap *)
-  mk_row "context/defs.rs" "CompilerContext::get_const_names" "iter" "defs.enums.iter()" 1 ["165193db9e"; "2e2af7cb80"] (PinStmt "2d29797ea9") CollectHash "";
+  mk_row "context/defs.rs" "CompilerContext::get_const_names" "iter" "defs.enums.iter()" 1 ["c0aa526eb3"; "70ff796cef"] (PinStmt "2d29797ea9") CollectHash "";
   (* line 1094; defs:field: HashMap<Ident,RibEntry> ; instrs:field: IdMap<(LanguageKey,raw::Opcode),InsData>
      returns `ins_sigs.chain(non_ins_sigs)`: the hash order of Defs::instrs is handed to the caller (site kind "call") *)
   mk_row "context/defs.rs" "CompilerContext::all_signatures" "values" "self.defs.instrs.values()" 1 ["1fd467afe8"] (PinFn "f24c1477d2") ReturnedIterator "";
@@ -66,18 +57,6 @@ Definition table : list row := [
   (* line 1155; enums:field: IdMap<Ident,EnumData>|field: IdMap<Ident,ScalarValueMap<Sp<Ident>>>|field: IdMap<Sp<Ident>,Vec<(i32,Sp<Ident>)>>
      DEFECT: `.min_by_key(|&(_, distance)| distance)`: of several equally close enum names the first in hash order is suggested (fixes/c19-similar-enum-tiebreak.diff) *)
   mk_row "context/defs.rs" "Defs::find_similar_enum_name" "keys" "self.enums.keys()" 1 ["c0aa526eb3"; "70ff796cef"] (PinStmt "f2651dc75b") MinByKeyFirstWins "find_similar_enum_name/enums.keys";
-  (* line 601; vars:field: IdMap<DefId,VarData>
-     `vars` is the Vec of declared variables of ast::Item::ConstVar / ast::StmtKind::Declaration; the name collides with Defs::vars *)
-  mk_row "fmt.rs" "Item::fmt" "iter" "vars.iter()" 1 ["de81639fb8"] PinDecl NotHash "";
-  (* line 722; vars:field: IdMap<DefId,VarData>
-     `vars` is the Vec of declared variables of ast::Item::ConstVar / ast::StmtKind::Declaration; the name collides with Defs::vars *)
-  mk_row "fmt.rs" "StmtKind::fmt" "for" "for pair in vars" 1 ["de81639fb8"] PinDecl NotHash "";
-  (* line 550; strings:field: IdMap<String,T>
-     `strings` is an `impl ExactSizeIterator` parameter fed from a Vec; the name collides with ScalarValueMap::strings *)
-  mk_row "formats/ecl/ecl_10.rs" "write_string_list" "for" "for string in strings" 1 ["2ba70666b3"] PinDecl NotHash "";
-  (* line 291; vars:field: IdMap<DefId,VarData>
-     `vars` is the Vec of declared variables of ast::Item::ConstVar / ast::StmtKind::Declaration; the name collides with Defs::vars *)
-  mk_row "llir/lower/stackless.rs" "SingleSubLowerer::lower_var_declaration" "for" "for pair in vars" 1 ["de81639fb8"] PinDecl NotHash "";
   (* line 1375; clashing_names_for_regs:let = IdMap::<RegId,IdMap<UsedName,UsedNameData>>::new();
      DEFECT (DESIGN section 6 #9): one `warning!("register {} used under multiple names")` is emitted per entry of an IdMap<RegId, ..>, in hash order (fixes/c19-ordered-register-maps.diff) *)
   mk_row "llir/lower/stackless.rs" "assign_registers" "for" "for (reg,used_names)in clashing_names_for_regs" 1 ["c44617be49"] (PinStmt "d61100d5d0") EmitInIterationOrder "assign_registers/clashing_names_for_regs";
@@ -87,60 +66,15 @@ Definition table : list row := [
   (* line 1421; implicitly_used_regs:param: &HashMap<RegId,(ScalarType,Span)>
      DEFECT: one `error.secondary(scratch_span, "{} holds this")` label per entry of a HashMap<RegId, ..> in hash order; codespan numbers multi-line labels in the order given, so the rendering of the "script too complex" error differs between launches when the scratch registers hold multi-line expressions (fixes/c19-ordered-register-maps.diff) *)
   mk_row "llir/lower/stackless.rs" "script_too_complex" "for" "for (&scratch_reg,&(scratch_ty,scratch_span))in implicitly_used_regs" 1 ["5e3b997814"] (PinStmt "efb3725827") EmitInIterationOrder "script_too_complex/implicitly_used_regs";
-  (* line 284; instrs:field: IdMap<(LanguageKey,raw::Opcode),InsData>
-     `instrs` is a Vec / slice of instructions; the name collides with Defs::instrs *)
-  mk_row "llir/mod.rs" "write_instrs" "for" "for (index,instr)in instrs.iter().enumerate()" 1 ["2422e9ab6a"] PinDecl NotHash "";
-  (* line 284; instrs:field: IdMap<(LanguageKey,raw::Opcode),InsData>
-     `instrs` is a Vec / slice of instructions; the name collides with Defs::instrs *)
-  mk_row "llir/mod.rs" "write_instrs" "iter" "instrs.iter()" 1 ["2422e9ab6a"] PinDecl NotHash "";
-  (* line 118; instrs:field: IdMap<(LanguageKey,raw::Opcode),InsData>
-     `instrs` is a Vec / slice of instructions; the name collides with Defs::instrs *)
-  mk_row "llir/raise/early.rs" "early_raise_intrinsics" "iter" "instrs.iter()" 1 ["2422e9ab6a"] PinDecl NotHash "";
   (* line 25; instrs:field: IdMap<(LanguageKey,raw::Opcode),InsData>
      `instrs` is a Vec / slice of instructions; the name collides with Defs::instrs *)
   mk_row "llir/raise/infer_pcb_signatures.rs" "CallRegSignatures::infer_from_calls" "for" "for instr in&mut script.instrs" 1 ["2422e9ab6a"] PinDecl NotHash "";
-  (* line 116; instrs:field: IdMap<(LanguageKey,raw::Opcode),InsData>
-     `instrs` is a Vec / slice of instructions; the name collides with Defs::instrs *)
-  mk_row "llir/raise/recognize.rs" "recognize_reg_call" "for" "for instr_index in 0..instrs.len()" 1 ["2422e9ab6a"] PinDecl NotHash "";
-  (* line 157; instrs:field: IdMap<(LanguageKey,raw::Opcode),InsData>
-     `instrs` is a Vec / slice of instructions; the name collides with Defs::instrs *)
-  mk_row "llir/raise/recognize.rs" "recognize_reg_call" "iter" "instrs[..num_instrs_used].iter()" 1 ["2422e9ab6a"] PinDecl NotHash "";
-  (* line 197; instrs:field: IdMap<(LanguageKey,raw::Opcode),InsData>
-     `instrs` is a Vec / slice of instructions; the name collides with Defs::instrs *)
-  mk_row "llir/raise/recognize.rs" "recognize_diff_switch" "for" "for instr in instrs" 1 ["2422e9ab6a"] PinDecl NotHash "";
-  (* line 257; instrs:field: IdMap<(LanguageKey,raw::Opcode),InsData>
-     `instrs` is a Vec / slice of instructions; the name collides with Defs::instrs *)
-  mk_row "llir/raise/recognize.rs" "recognize_diff_switch" "iter" "instrs[..num_instrs_compressed].iter()" 1 ["2422e9ab6a"] PinDecl NotHash "";
-  (* line 94; vars:field: IdMap<DefId,VarData>
-     `vars` is the Vec of declared variables of ast::Item::ConstVar / ast::StmtKind::Declaration; the name collides with Defs::vars *)
-  mk_row "passes/desugar_blocks.rs" "InsertLocalScopeEndsVisitor::visit_stmt" "for" "for pair in vars" 1 ["de81639fb8"] PinDecl NotHash "";
-  (* line 274; vars:field: IdMap<DefId,VarData>
-     `vars` is the Vec of declared variables of ast::Item::ConstVar / ast::StmtKind::Declaration; the name collides with Defs::vars *)
-  mk_row "passes/type_check.rs" "Visitor::check_stmt_declaration" "iter" "vars.iter()" 1 ["de81639fb8"] PinDecl NotHash "";
   (* line 210; defs:field: HashMap<Ident,RibEntry>
      Defs::initial_ribs returns a Vec built from two EnumMap<LanguageKey, Rib> (in key order) and two single ribs; `defs` collides with rib::Rib::defs *)
   mk_row "resolve/mod.rs" "Visitor::new" "into_iter" "ctx.defs.initial_ribs().into_iter()" 1 ["597f776878"] PinDecl NotHash "";
-  (* line 269; vars:field: IdMap<DefId,VarData>
-     `vars` is the Vec of declared variables of ast::Item::ConstVar / ast::StmtKind::Declaration; the name collides with Defs::vars *)
-  mk_row "resolve/mod.rs" "Visitor::visit_item" "for" "for sp_pat![(_,expr)]in vars" 1 ["de81639fb8"] PinDecl NotHash "";
-  (* line 302; vars:field: IdMap<DefId,VarData>
-     `vars` is the Vec of declared variables of ast::Item::ConstVar / ast::StmtKind::Declaration; the name collides with Defs::vars *)
-  mk_row "resolve/mod.rs" "Visitor::visit_stmt" "for" "for pair in vars" 1 ["de81639fb8"] PinDecl NotHash "";
-  (* line 478; vars:field: IdMap<DefId,VarData>
-     `vars` is the Vec of declared variables of ast::Item::ConstVar / ast::StmtKind::Declaration; the name collides with Defs::vars *)
-  mk_row "resolve/mod.rs" "Visitor::add_item_to_scope" "for" "for sp_pat![(var,expr)]in vars" 1 ["de81639fb8"] PinDecl NotHash "";
   (* line 86; var_values:field: HashMap<VarId,VarValue>
      Display for AstVm (used by tests only): entries are pushed to `others` / `regs`, both `sort_by_key(|&(id, _)| id)` before printing *)
   mk_row "vm.rs" "AstVm::fmt" "for" "for (&var_id,value)in&self.var_values" 1 ["56db49ee97"] (PinFn "9710486c87") CollectThenSort "";
-  (* line 97; regs:field: IdMap<(LanguageKey,RegId),RegData>
-     `regs` is the sorted Vec built just above; the name collides with Defs::regs *)
-  mk_row "vm.rs" "AstVm::fmt" "for" "for (reg,value)in regs" 1 ["d7fef516fe"] (PinFn "9710486c87") NotHash "";
-  (* line 415; vars:field: IdMap<DefId,VarData>
-     `vars` is the Vec of declared variables of ast::Item::ConstVar / ast::StmtKind::Declaration; the name collides with Defs::vars *)
-  mk_row "vm.rs" "AstVm::_run" "for" "for pair in vars.iter()" 1 ["de81639fb8"] PinDecl NotHash "";
-  (* line 415; vars:field: IdMap<DefId,VarData>
-     `vars` is the Vec of declared variables of ast::Item::ConstVar / ast::StmtKind::Declaration; the name collides with Defs::vars *)
-  mk_row "vm.rs" "AstVm::_run" "iter" "vars.iter()" 1 ["de81639fb8"] PinDecl NotHash "";
   (* line 1095; defs:field: HashMap<Ident,RibEntry> ; instrs:field: IdMap<(LanguageKey,raw::Opcode),InsData>
      after fixes/c19-signature-validation-order.diff: `.iter().map(..).collect::<Vec<_>>()` then `sort_by_key(|&(key, _)| key)`; keys of one map are distinct *)
   mk_row "context/defs.rs" "CompilerContext::all_signatures" "iter" "self.defs.instrs.iter()" 1 ["1fd467afe8"] (PinFn "17441ce31c") CollectThenSort "";
